@@ -11,7 +11,7 @@ class C13(framework.PropertyCheck):
     thorough_cases = 5000
     rule = ('random bodies of the trace-reading fragment (arithmetic/logic over signals, @ offsets, another virtual signal, ~/# references '
             'captured by in-scope / in-group at definition) x visit orders of length<=10 (forward, backward, random jumps, reads via @k, via '
-            'find/count/whenever, repeated reads, an intervening sample-at); at every visit the virtual signal is compared with its body text '
+            'find/count/whenever, repeated reads, an intervening sample-at); optionally the name is queried before the definition, an earlier definition of the same name is read at every index and then replaced, or a grouped evaluation inside a captured scope precedes the definition; at every visit the virtual signal is compared with its body text '
             'evaluated in place; non-trivial = some index is read at least twice with a different index read in between, or a sample-at occurs')
     assumptions = ['single trace (defsig registers signals under the qualified name with several traces, outside the property)',
                    'strictly increasing timestamps; bodies without their own in-scope/in-group']
@@ -59,14 +59,32 @@ class C13(framework.PropertyCheck):
                     visits.append(['sample', L])
                 else:
                     visits.append(['again'])
-            yield {'N': N, 'seed': rng.randrange(1 << 30), 'define': define, 'name': name, 'body': body, 'visits': visits}
+            case = {'N': N, 'seed': rng.randrange(1 << 30), 'define': define, 'name': name, 'body': body, 'visits': visits}
+            if rng.random() < 0.4:
+                case['probe_before'] = True          # the name is asked for before it exists
+            if kind == 'top' and rng.random() < 0.35:
+                case['redefine'] = rng.choice(['(+ top.cnt 100)', '(* top.cnt top.cnt@1)', '(= top.clk 0)'])   # an earlier definition, read everywhere, then replaced
+            if kind in ('top', 'scope') and rng.random() < 0.3:
+                case['pre_groups'] = True            # a grouped evaluation inside a captured scope has come and gone before the definition
+            yield case
 
     def _plan(self, case):
         vf, _den = gen_trace.simple_vcd(random.Random(case['seed']), case['N'], sigs=gen_expr.SIGS)
-        steps = [('loadvcd', 't0', gen_trace.render(vf)), ('eval', 'eorg', '(defsig u0 (+ top.cnt (if (= top.clk 1) 2 0)))'),
-                 ('eval', 'eorg', case['define'])]
+        steps = [('loadvcd', 't0', gen_trace.render(vf)), ('eval', 'eorg', '(defsig u0 (+ top.cnt (if (= top.clk 1) 2 0)))')]
         v, b = case['name'], case['body']
-        marks = [('listed', len(steps))]
+        marks = []
+        if case.get('probe_before'):
+            marks.append(('unlisted', len(steps)))
+            steps.append(('eval', 'eorg', f'(list (in "{v}" SIGNALS) (signal? "{v}"))'))
+        if case.get('pre_groups'):
+            steps.append(('eval', 'eorg', '(in-scope "top" (in-groups (groups "valid" "ready") (+ #valid #ready)))'))
+        if case.get('redefine'):
+            steps.append(('eval', 'eorg', f'(defsig {v} {case["redefine"]})'))
+            for i in list(range(case['N'])) + [0]:
+                steps.append(('eval', 'eorg', f'(step (- {i} INDEX))'))
+                steps.append(('eval', 'eorg', f'(list {v} (reval {v} 1))'))
+        steps.append(('eval', 'eorg', case['define']))
+        marks.append(('listed', len(steps)))
         steps.append(('eval', 'eorg', f'(list (in "{v}" SIGNALS) (signal? "{v}"))'))
         n_cur = case['N']
         for vis in case['visits']:
@@ -118,7 +136,10 @@ class C13(framework.PropertyCheck):
             o = iobs[si]
             if o[0] != 'ok':
                 return None
-            if kind == 'listed':
+            if kind == 'unlisted':
+                if o[1][2] != (('B', False), ('B', False)):
+                    return {'what': 'a name is reported as a signal before it is defined', 'name': case['name'], 'got': o[1]}
+            elif kind == 'listed':
                 if o[1][2] != (('B', True), ('B', True)):
                     return {'what': 'virtual signal is not listed among the signals under its relative name', 'name': case['name'], 'got': o[1]}
             elif kind == 'pair':
